@@ -803,7 +803,8 @@ func propTime(args []string) string {
 
 func knownTime(args []string) string {
 	// instant - duration(MinInt64): the negation of the duration wraps
-	if len(args) == 3 && strings.Contains(args[0]+";"+args[2], "d-9223372036854775808") {
+	// (a duration literal or value, or an integer literal standing for a duration)
+	if len(args) == 3 && (strings.Contains(args[0]+";"+args[2], "d-9223372036854775808") || strings.Contains(args[0], "I-9223372036854775808")) {
 		return minDurClass
 	}
 	return ""
